@@ -305,7 +305,7 @@ func GenMatrix(r *rand.Rand, m MatrixCell, pf Profile) *Scenario {
 		{Plan: root1, Spawn: r.Intn(2) == 0, MinInterval: 200 + r.Intn(400)},
 		{Plan: root2, Spawn: !m.Spawn, MinInterval: 200 + r.Intn(400)},
 	}
-	pace := func() Op { return Op{Kind: "progress", US: 1200} }
+	pace := func() Op { return Op{Kind: "progress", US: 1200 + 2*sc.WTRDelayUS} }
 	ops := []Op{
 		{Kind: "write", Cell: 0, Style: WInvalidate}, pace(),
 		{Kind: "write", Cell: 1, Style: WStrobe}, pace(),
@@ -315,8 +315,11 @@ func GenMatrix(r *rand.Rand, m MatrixCell, pf Profile) *Scenario {
 		// rerunner 2 reads cell 1: its re-run is inside the write-then-read delay when Stop arrives
 		ops = append(ops, Op{Kind: "write", Cell: 1, Style: WStrobe}, Op{Kind: "sleep", US: sc.WTRDelayUS/4 + r.Intn(sc.WTRDelayUS/2+1)})
 	}
+	ops = append(ops, Op{Kind: "stop", RR: 2})
+	if pf.Cache {
+		ops = append(ops, Op{Kind: "purge", RR: 0}, Op{Kind: "write", Cell: 0, Style: WInvalidate}, pace())
+	}
 	ops = append(ops,
-		Op{Kind: "stop", RR: 2},
 		Op{Kind: "write", Cell: 1, Style: WStrobe}, pace(),
 		Op{Kind: "write", Cell: 5, Style: styleFor(r)}, pace(), // switch off: keys s, t drop out
 		Op{Kind: "write", Cell: 0, Style: WDouble}, pace(),
@@ -324,9 +327,6 @@ func GenMatrix(r *rand.Rand, m MatrixCell, pf Profile) *Scenario {
 		Op{Kind: "write", Cell: 2, Style: WInvalidate}, pace(),
 		Op{Kind: "write", Cell: 5, Style: styleFor(r)}, pace(), // switch on again
 	)
-	if pf.Cache {
-		ops = append(ops, Op{Kind: "purge", RR: 0}, Op{Kind: "write", Cell: 0, Style: WInvalidate}, pace())
-	}
 	// a few seeded extras
 	for i := 0; i < r.Intn(3); i++ {
 		ops = append(ops, Op{Kind: "write", Cell: r.Intn(5), Style: styleFor(r)}, pace()) // never the switch: it stays on
